@@ -117,4 +117,15 @@ def post(tier, cm):
     if res["violation_count"]:
         v = res["violations"][0]
         ev = {"engine": "grid", "grid": "c19", "case": v["case"], "message": v["message"], "tier": tier}
+    if ev is None and rc != 2:
+        # every slice / str / header+slice value is written through a builder: a builder that completes without the
+        # caller having supplied every element hands out a value nobody constructed (builders grid, shared with C18)
+        rc2, res2 = engines.run_grid("C18", tier)
+        if res2 is None:
+            return 2, cov, None
+        cov["grid_builders"] = {k: res2[k] for k in ("evaluations", "distinct_nontrivial", "rule", "samples", "violation_count")}
+        if res2["violation_count"]:
+            v = res2["violations"][0]
+            ev = {"engine": "grid", "grid": "c18", "case": v["case"], "message": v["message"], "tier": tier}
+        rc = max(rc, rc2)
     return rc, cov, ev
